@@ -233,6 +233,11 @@ func exAbstractWL(cs *kruisev1alpha1.CloneSet) J {
 }
 
 func exRun(in exIn) interface{} {
+	out, _ := exRunF(in, 0)
+	return out
+}
+
+func exRunF(in exIn, failN int) (J, faultRun) {
 	rel := exBuildRelease(in.BR)
 	objs := []client.Object{rel}
 	if in.WL != nil {
@@ -240,7 +245,10 @@ func exRun(in exIn) interface{} {
 	}
 	cli := NewLogClient(fakeClient(objs...))
 	rec := batchrelease.VerifNewReconciler(cli, theScheme)
+	cli.Calls, cli.FailCallN, cli.FaultHit = 0, failN, ""
 	res, err := rec.Reconcile(context.TODO(), ctrl.Request{NamespacedName: types.NamespacedName{Namespace: "ns", Name: "br"}})
+	cli.FailCallN = 0
+	fr := faultRun{Err: err != nil, Requeue: res.RequeueAfter > 0 || res.Requeue, Calls: cli.Calls, Hit: cli.FaultHit, Writes: writesOf(cli)}
 	out := J{"requeue": res.RequeueAfter > 0 || res.Requeue, "err": err != nil}
 	got := &v1beta1.BatchRelease{}
 	if e := cli.Get(context.TODO(), types.NamespacedName{Namespace: "ns", Name: "br"}, got); e != nil {
@@ -264,7 +272,7 @@ func exRun(in exIn) interface{} {
 	} else {
 		out["wl"] = exAbstractWL(cs)
 	}
-	return out
+	return out, fr
 }
 
 func exCase(c *Ctx, in exIn) {
@@ -412,11 +420,26 @@ func pickInt(c *Ctx, xs ...int) int { return xs[c.Rng.Intn(len(xs))] }
 
 func runExecutor(c *Ctx) {
 	for i := 0; i < c.N; i++ {
-		exCase(c, genExecutorCase(c))
+		in := genExecutorCase(c)
+		exCase(c, in)
+		if i%6 == 0 {
+			faultSweep(c, in, c.Thorough() && i%30 == 0, func(n int) faultRun { _, r := exRunF(in, n); return r })
+		}
 	}
 }
 
 func replayExecutor(c *Ctx, op string, raw json.RawMessage) {
+	if op == "fault" {
+		var f struct {
+			In exIn `json:"in"`
+			K  int  `json:"k"`
+		}
+		if err := json.Unmarshal(raw, &f); err != nil {
+			panic(err)
+		}
+		faultReplay(c, f.In, f.K, func(n int) faultRun { _, r := exRunF(f.In, n); return r })
+		return
+	}
 	var in exIn
 	if err := json.Unmarshal(raw, &in); err != nil {
 		panic(err)
